@@ -220,7 +220,19 @@ def ranked_root(rng, n=None, chain=None, cyc=False):
                 v = ('m', [(S('x'), S('${%s}' % tp)), (S('y'), S('${%s}' % tp))])
                 sub[k] = ['x', 'y']
                 refs.append(('mapval', tp))
-            elif r < 0.85:
+            elif r < 0.8 and any(sub.get(keys[q]) for q in range(i)):
+                # multi-layer mapping key whose layers are references (same path twice, or a
+                # diamond); later keys look into it with nested paths ${k:x}
+                cands = [q for q in range(i) if sub.get(keys[q])]
+                j1 = rng.choice(cands)
+                v = S('${%s}' % keys[j1])
+                second = rng.choice([S('${%s}' % keys[j1]), S('${%s}' % keys[rng.choice(cands)]), M(('q', I(1))), M(('x', S('ov')))])
+                layers2.append((S(k), second))
+                if rng.random() < 0.3:
+                    layers2.append((S(k), rng.choice([N, S('${%s}' % keys[j1]), M(('x', I(7)))])))
+                sub[k] = [p_ for p_ in sub[keys[j1]] if ':' not in p_]
+                refs.append(('layer', keys[j1]))
+            elif r < 0.88:
                 # layer: this key defined twice, second definition is a reference or a map
                 v = S('${%s}' % tp)
                 layers2.append((S(k), rng.choice([S('${%s}' % keys[rng.randint(0, i - 1)]), M(('q', I(1))), L(I(5)), N])))
